@@ -1,6 +1,7 @@
 from core import Case, hexs
 import base64 as pyb64, itertools
 PID = "C13"
+SOURCE_TIE = ['tie_b64']      # theorems of coq_tie/Tie_Source.v re-checked against Gen_Source.v regenerated from /repo on every run
 DRIVER = "drv_pure"
 RULE = ("base64_encode (ptr, vector, secure_buffer, defaults) and base64_decode (reused vector / secure_buffer outputs + fresh vector) vs the models; encoder: all byte strings of length <= 2 "
         "(sampled grid), length 3-5 pairwise, random to 200 bytes x 2 alphabets x pad; decoder: every string over a reduced 12-symbol alphabet up to length 4-5, valid encodings mutated "
